@@ -117,7 +117,10 @@ def build_trace_static(ctx, tid, desc, net, k):
                 As.append(species_mass(n))
                 el.append(n in O.ELECTRONS)
             netrec = {"comp": comp, "A": [MASS.get(e, 0) for e in enames], "As": As, "electron": el}
-        e = {"act": "Tables", "ok": True, "M": [], "F": [], "be": solver, "err": ""}
+        # the listed elements are those whose atom is a species of the network AS IT IS NOW (by the pool's intended compositions)
+        atoms_now = {el2 for n in names for el2 in MASS if n in O.POOL and O.POOL[n] == ({el2: 1}, 0)}
+        e = {"act": "Tables", "ok": True, "M": [], "F": [], "be": solver, "err": "", "elements_ok": {x for _, x in elems if x in MASS} == atoms_now and
+             all(x in MASS for _, x in elems)}
         try:
             M, F = read_renorm((out / "src/naunet_renorm.cpp").read_text(), macros, solver)
             ne = len(elems)
@@ -240,6 +243,30 @@ def main(ctx: Ctx) -> int:
             continue
         if k < ndyn or kind in ("grain", "hydrogen-early"):
             traces += dynamic_traces(ctx, len(traces) + 1, desc, net, k, rng)
+        if kind == "random" and k % 2 == 0:
+            # a network object, rendered once, then remove_reaction takes an element out of it entirely: the emitted tables must be those
+            # of what is left.  (The element's atom must itself react, so that nothing keeps the element alive.)
+            comp_of = lambda n: set(O.POOL[n][0]) if n in O.POOL else set()
+            reacting = {x for r, p in desc["reactions"] for x in r + p}
+            for el in sorted({e for x in reacting for e in comp_of(x)} - {"H"}):
+                drop = [i for i, (r, p) in enumerate(desc["reactions"]) if any(el in comp_of(x) for x in r + p)]
+                left = [rp for i, rp in enumerate(desc["reactions"]) if i not in drop]
+                if el not in reacting or not drop or not left:
+                    continue
+                req2 = [x for x in desc["required"] if el not in comp_of(x)]
+                present = {x for r, p in left for x in r + p} | set(req2)
+                if not all(e in present for x in present for e in comp_of(x)):
+                    continue         # (an element without its atom is the recorded finding, not this check's subject)
+                try:
+                    net2 = O.build_network(dict(desc, required=req2))
+                    build_trace_static(ctx, 0, dict(desc, required=req2, kind="random"), net2, 40000 + k)      # first rendering (result not judged again)
+                    net2.remove_reaction(list(drop))
+                    traces.append(build_trace_static(ctx, len(traces) + 1, dict(desc, reactions=left, required=req2, kind="random",
+                                                                                 note=f"after remove_reaction took element {el} out"), net2, 50000 + k))
+                    cov["rendered_again_after_an_element_was_removed"] = cov.get("rendered_again_after_an_element_was_removed", 0) + 1
+                except Exception as e:   # noqa
+                    ctx.violation(f"C16|Render|{type(e).__name__}|after-removal", f"{type(e).__name__}: {e}", {"desc": desc})
+                break
     for i, t in enumerate(traces):
         t["tid"] = i + 1
     v = validate_traces(ctx, "Trace_Renorm.tla", "Trace_Renorm.cfg", [{k2: t[k2] for k2 in ("tid", "net", "ev")} for t in traces], "renorm")
